@@ -31,4 +31,22 @@ META = {
   "note": "No coverage-guided fuzzer decides the verdict (technique family); inputs are structure-aware. ASan/Miri passes are supplementary (thorough tier).",
   "technique": "runtime monitoring: panic/allocation/CPU/state-diff monitors around real decoder executions on structure-aware hostile inputs",
  },
+ "C03": {
+  "text": "Runtime monitoring of the real wallets under generated interleaved histories (several thousand steps per quick run, tens of thousands thorough) with an exclusivity/idempotence monitor evaluated after every step.",
+  "design_ref": "DESIGN.md section 5 C03",
+  "note": "Histories are sampled; the monitor reads wallet state through the backend iterators after each step.",
+  "technique": "runtime monitoring: invariant monitor (reservation exclusivity, idempotent repeats) over generated interleaved histories on real LMDB wallets and chain",
+ },
+ "C04": {
+  "text": "Runtime monitoring: at every validated refresh in generated histories the wallet's books are compared with the real chain's UTXO set, heights and coinbase flags (membership, balance partition for four confirmation settings, ledger equality, cross-account frame condition).",
+  "design_ref": "DESIGN.md section 5 C04",
+  "note": "Chain truth is read from grin_chain directly; histories that the statement excludes (cancel after broadcast, reorganisation) are not generated.",
+  "technique": "runtime monitoring: chain-truth oracle evaluated at every successful refresh over generated histories",
+ },
+ "C15": {
+  "text": "Runtime monitoring: a path -> output map maintained over every output record ever observed in generated histories (with restarts, cancels after broadcast, node outages), plus restore-from-seed runs checking that the next derivation index lies beyond every path on chain.",
+  "design_ref": "DESIGN.md section 5 C15",
+  "note": "Crash points are covered by the C06 runs, which feed the same monitor (see C06).",
+  "technique": "runtime monitoring: key-path uniqueness monitor over generated histories and restores",
+ },
 }
